@@ -335,6 +335,20 @@ let bad_argument_call (p : parsed) (observed : S.t) : string option =
         List.fold_left (fun acc c -> match acc with Some _ -> acc | None -> verdict_of_call c) None calls
       | None, _ -> None) None resps
 
+(* does the specification report a missing required argument at selection id for this call?  (the
+   selection may only ever be evaluated in object types whose field of that name declares other
+   arguments: then another defect - an undeclared argument - is what the response must name) *)
+let spec_reports_missing (p : parsed) (id : int) (name, vars) : bool =
+  let rootobj =
+    match Model.choose_op p.doc name with
+    | Some o ->
+      let n = (match o.op_kind with OpQuery -> fst p.roots | _ -> snd p.roots) in
+      if n < 0 then GNil else if p.strat_r n then GNodeR (nat_of_int n) else GNodeA (nat_of_int n)
+    | None -> GNil in
+  match Model.sem_op p.schema p.graph p.any p.max_depth fuel p.doc name vars rootobj with
+  | Done r -> List.exists (fun e -> e.e_kind = EMissingArg && e.e_loc = LNode (nat_of_int id)) r.r_errs
+  | OutOfFuel -> false
+
 let oracle_c10 (p : parsed) (observed : S.t) : string =
   if undefined_field_call p observed then "fails:resolver-invoked-for-a-field-its-type-does-not-define" else
   match bad_argument_call p observed with Some v -> v | None ->
@@ -365,7 +379,7 @@ let oracle_c10 (p : parsed) (observed : S.t) : string =
            else if Lazy.force is_reached && not (err_kind "badarg") && not (err_at_node "notfield") then "fails:no-error-naming-the-undeclared-argument"
            else "holds"
          | "missing-required" ->
-           if Lazy.force is_reached && not (err_at_node "missingarg") && not (err_at_node "notfield") then "fails:no-error-for-the-missing-required-argument"
+           if Lazy.force is_reached && spec_reports_missing p id call && not (err_at_node "missingarg") then "fails:no-error-for-the-missing-required-argument"
            else "holds"
          | "undefined-fragment-cond" -> "fails:fragment-on-undefined-type-accepted"
          | _ -> "fails:defective-document-not-rejected")
